@@ -252,7 +252,12 @@ func c09Finalized(c *core.Ctx) {
 		}
 		c.Decide(ok, rule, "aggsender/query.GetLatestFinalizedL1InfoRoot#chain", gr.Pos(), "root = root recorded for the index of the latest leaf until the cross-checked finalized block; the same leaf is returned")
 	}
-	// the querier keeps no state between calls (a cache keyed by GER alone would serve proofs for an older root)
+	statelessQueriers(c, rule)
+}
+
+// statelessQueriers: the querier / flow objects keep no state between calls (a cache keyed by GER or deposit count alone
+// would serve answers computed for an older chain state after a reorg).
+func statelessQueriers(c *core.Ctx, rule string) {
 	for _, tn := range [][2]string{{"aggsender/query", "L1InfoTreeDataQuerier"}, {"aggsender/query", "bridgeDataQuerier"}, {"aggsender/flows", "baseFlow"}} {
 		n := c.Named(tn[0], tn[1])
 		if n == nil {
